@@ -69,6 +69,97 @@ def check(run, prog, tier):
                         "read through the property (current units) goes into the storage, no element is assigned through the "
                         "property (the converted copy)", minimum=12)
     rule_U13(run, prog)
+    run.rule("C05-U14", "a units-managed object is not created under the current units from values taken out of raw storage "
+                        "(internal units)", minimum=2)
+    rule_U14(run, prog)
+
+
+def rule_U14(run, prog):
+    """The constructor of a class with units-managed attributes (Hamiltonian(data=...), FrequencyAxis(start, length, step))
+    takes its values in the units current at the call.  Values read from the raw storage `obj._X` of such an attribute are
+    internal whatever units are current: a constructor call fed with them - directly or through local names, following
+    the statements in source order, a rebinding to a clean value ending the dependence - has to sit in an internal-units
+    block, otherwise the new object's values are converted a second time."""
+    from ..loader import parents_map
+    from .. import unitflow
+    rid = "C05-U14"
+    um = {}
+    for cls in prog.all_classes():
+        man = unitflow.converted_attributes(prog, cls)
+        if man and ".tests" not in cls.module.name:
+            um[cls.name] = (cls, man)
+    raw_names = {"_" + a for _, man in um.values() for a in man}
+    n = 0
+    for f in prog.all_functions():
+        if ".tests" in f.qualname or ".wizard" in f.qualname:
+            continue
+        calls = [c for c in walk_no_nested(f.node) if isinstance(c, ast.Call) and call_name(c) in um]
+        if not calls:
+            continue
+        pm = parents_map(f.node)
+        stmts = sorted([st for st in walk_no_nested(f.node) if isinstance(st, (ast.Assign, ast.AugAssign))], key=lambda x: (x.lineno, x.col_offset))
+
+        def dominates(st, node):
+            """st is an earlier statement of a block that (transitively) contains node"""
+            while node is not None and node is not f.node:
+                p_ = pm.get(node)
+                for fld in ("body", "orelse", "finalbody"):
+                    blk = getattr(p_, fld, None)
+                    if isinstance(blk, list) and node in blk and st in blk[:blk.index(node)]:
+                        return True
+                node = p_
+            return False
+
+        def taint_at(line, call=None):
+            taint = {}
+            for st in stmts:
+                if st.lineno >= line:
+                    break
+                def dirty(e):
+                    for x in ast.walk(e):
+                        if isinstance(x, ast.Attribute) and x.attr in raw_names and isinstance(x.ctx, ast.Load) and norm(x.value) != "self":
+                            return norm(x)
+                        if isinstance(x, ast.Call) and (call_name(x) or "").endswith("2_internal_u"):
+                            return norm(x)[:40]
+                        if isinstance(x, ast.Name) and x.id in taint:
+                            return taint[x.id]
+                    return None
+                d = dirty(st.value)
+                for t_ in (st.targets if isinstance(st, ast.Assign) else [st.target]):
+                    b_ = t_
+                    while isinstance(b_, ast.Subscript):
+                        b_ = b_.value
+                    if not isinstance(b_, ast.Name):
+                        continue
+                    if d is not None and not unitflow.in_int_context(pm, st) or d is not None:
+                        taint[b_.id] = d
+                    elif b_ is t_ and isinstance(st, ast.Assign) and (call is None or dominates(st, call)):
+                        taint.pop(b_.id, None)       # plain rebinding to a clean value on every way to the call
+            return taint
+        for c in calls:
+            cls, man = um[call_name(c)]
+            params = [a.arg for a in (prog.find_method(cls, "__init__").node.args.args[1:] if prog.find_method(cls, "__init__") else [])]
+            vals = [(k.arg, k.value) for k in c.keywords if k.arg in man] + [(p_, a) for p_, a in zip(params, c.args) if p_ in man]
+            if not vals:
+                continue
+            n += 1
+            prog.consulted.add(f.relpath)
+            taint = taint_at(c.lineno, c)
+            src = None
+            for _, v in vals:
+                for x in ast.walk(v):
+                    if isinstance(x, ast.Attribute) and x.attr in raw_names and norm(x.value) != "self":
+                        src = src or norm(x)
+                    if isinstance(x, ast.Name) and x.id in taint:
+                        src = src or taint[x.id]
+            bad = src is not None and not unitflow.in_int_context(pm, c)
+            run.obligation(rid, f.short, not bad, key="ctor-from-storage:" + norm(c)[:40],
+                           message="%s creates %s from values taken out of the raw storage %s (internal units) outside an "
+                                   "internal-units block: under energy_units the constructor converts them once more and the new "
+                                   "object's energies are off by the conversion factor" % (f.short, norm(c)[:40], src),
+                           loc=f.loc(c), sample={"call": norm(c)[:60], "from": src})
+    if n < 2:
+        raise AnalysisError("only %d constructor calls of units-managed classes with managed arguments found" % n)
 
 
 def rule_U13(run, prog):
